@@ -60,6 +60,14 @@ def _task_name():
     return t or "unknown"
 
 
+CURRENT_WORLD = None  # used by provider-built instances (server world), which get no world argument
+
+
+def set_current_world(w):
+    global CURRENT_WORLD
+    CURRENT_WORLD = w
+
+
 class SimLLM(LLM):
     temperature: float = DEFAULT_TEMPERATURE
     max_tokens: int = DEFAULT_MAX_TOKENS
@@ -80,7 +88,7 @@ class SimLLM(LLM):
         return {"temperature": self.temperature, "max_tokens": self.max_tokens, "model_kwargs": dict(self.model_kwargs)}
 
     def _call(self, prompt, stop=None, run_manager=None, **kwargs):
-        w = self.world
+        w = self.world or CURRENT_WORLD
         call = self._new_call(w, prompt, stop)
         call.params_mid = call.params_exit = call.params_enter
         call.t_exit = call.t_enter
@@ -109,7 +117,7 @@ class SimLLM(LLM):
         return w.responder(call)
 
     async def _acall(self, prompt, stop=None, run_manager=None, **kwargs):
-        w = self.world
+        w = self.world or CURRENT_WORLD
         if "pre_params_yield" in w.buggify:
             await asyncio.sleep(0)
         call = self._new_call(w, prompt, stop)
